@@ -37,19 +37,23 @@ Definition cf_ok (env : lenv) (cf : tree → result tree) : Prop :=
   ∀ t s, wf_tree t → env_ok env t → chains_good env t → cf t = Ok s →
     good_all env s ∧ sem_tree env s = sem_tree env t ∧ columns s = columns t ∧ engine_of s = engine_of t.
 
-(* other.with_rows_satisfying(predicate) on the operand that survives *)
-Lemma select_rows_sound env cf p t s :
-  cf_ok env cf → wf_tree t → env_ok env t → chains_good env t → cols_p p ⊆ columns t →
+(* other.with_rows_satisfying(predicate) on the operand that survives; only the SQL engine re-enters conform, so the
+   markers inside the operand have to be good only there *)
+Lemma select_rows_sound' env cf p t s :
+  cf_ok env cf → wf_tree t → env_ok env t → (ekind_of (engine_of t) = KSql → chains_good env t) → cols_p p ⊆ columns t →
   select_rows cf p t = Ok s →
-  wf_tree s ∧ env_ok env s ∧ chains_good env s ∧ sem_tree env s = sem_sel p (sem_tree env t) ∧
-  columns s = columns t ∧ engine_of s = engine_of t.
+  wf_tree s ∧ env_ok env s ∧ (chains_good env t → chains_good env s) ∧ sem_tree env s = sem_sel p (sem_tree env t) ∧
+  columns s = columns t ∧ engine_of s = engine_of t ∧
+  (ekind_of (engine_of t) = KSql → as_trivial p ≠ Some true → good_all env s).
 Proof.
   intros Hcf W E C Hp H. unfold select_rows in H.
   pose proof (sem_tree_dom env t W E) as Hd.
   assert (Htriv : as_trivial p = Some true →
-                  wf_tree t ∧ env_ok env t ∧ chains_good env t ∧ sem_tree env t = sem_sel p (sem_tree env t) ∧
-                  columns t = columns t ∧ engine_of t = engine_of t).
-  { intros Ht. repeat split; auto. symmetry. eapply sem_sel_true; eauto. }
+                  wf_tree t ∧ env_ok env t ∧ (chains_good env t → chains_good env t) ∧ sem_tree env t = sem_sel p (sem_tree env t) ∧
+                  columns t = columns t ∧ engine_of t = engine_of t ∧
+                  (ekind_of (engine_of t) = KSql → as_trivial p ≠ Some true → good_all env t)).
+  { intros Ht. split; [exact W|]. split; [exact E|]. split; [auto|]. split; [symmetry; eapply sem_sel_true; eauto|].
+    split; [reflexivity|]. split; [reflexivity|]. intros _ Hn. contradiction. }
   destruct (as_trivial p) as [[|]|] eqn:Et; [injection H as <-; apply Htriv; reflexivity| |].
   all: destruct (begin_apply (Sel (selection_norm p)) (columns t)) as [o|] eqn:Eb; cbn [rbind] in H; [|discriminate].
   all: assert (Hn : cols_p (selection_norm p) ⊆ columns t) by (etransitivity; [apply selection_norm_cols|exact Hp]).
@@ -57,53 +61,39 @@ Proof.
          by (apply sem_sel_ext; intros r; apply selection_norm_holds).
   all: destruct (begin_apply_wf (Sel (selection_norm p)) (columns t) o I Eb) as [[-> Hid]|[-> Ho]].
   all: destruct (ekind_of (engine_of t)) eqn:Ek.
-  (* four sub-cases for each value of as_trivial: Ident/Sel x KIter/KSql *)
   all: try (destruct (Hid (sem_tree env t) Hd Hn) as [Hs _]; cbn [sem_op] in Hs).
-  - (* Ident, iteration *)
-    destruct (finish_apply_sem env t Ident s W E (or_introl eq_refl) H) as (F1 & F2 & F3 & F4 & F5).
-    cbn [sem_op op_columns] in F1, F3.
-    split; [exact F2|]. split; [exact F4|]. split; [eapply finish_apply_chains; eauto|].
-    split; [rewrite F1, <- Hsem, Hs; reflexivity|]. split; [exact F3|exact F5].
-  - destruct (cf t) as [c|] eqn:Ec; cbn [rbind] in H; [|discriminate].
-    destruct (Hcf t c W E C Ec) as (C1 & C2 & C3 & C4).
-    pose proof (good_all_sel env c C1) as Hsel. destruct c as [| | | | |sl k tg]; try (destruct Hsel; fail).
-    cbn [append_unary_sel] in H. injection H as <-.
-    destruct (good_all_wf env _ C1) as [Wc Ec'].
-    split; [exact Wc|]. split; [exact Ec'|]. split; [apply good_all_chains; exact C1|].
-    split; [rewrite C2, <- Hsem, Hs; reflexivity|]. split; [exact C3|exact C4].
-  - destruct (finish_apply_sem env t _ s W E (or_intror Ho) H) as (F1 & F2 & F3 & F4 & F5).
-    cbn [sem_op op_columns] in F1, F3.
-    split; [exact F2|]. split; [exact F4|]. split; [eapply finish_apply_chains; eauto|].
-    split; [rewrite F1, Hsem; reflexivity|]. split; [exact F3|exact F5].
-  - destruct (cf t) as [c|] eqn:Ec; cbn [rbind] in H; [|discriminate].
-    destruct (Hcf t c W E C Ec) as (C1 & C2 & C3 & C4).
-    assert (Ho' : op_wf (Sel (selection_norm p)) (columns c)) by (rewrite C3; exact Ho).
-    destruct (append_unary_sel_sound env c _ s C1 Ho' H) as (S1 & S2 & S3 & S4).
-    destruct (good_all_wf env _ S1) as [Ws Es].
-    split; [exact Ws|]. split; [exact Es|]. split; [apply good_all_chains; exact S1|].
-    split; [rewrite S2, C2; cbn [sem_op]; exact Hsem|]. split; [rewrite S3, C3; reflexivity|rewrite S4, C4; reflexivity].
-  - destruct (finish_apply_sem env t Ident s W E (or_introl eq_refl) H) as (F1 & F2 & F3 & F4 & F5).
-    cbn [sem_op op_columns] in F1, F3.
-    split; [exact F2|]. split; [exact F4|]. split; [eapply finish_apply_chains; eauto|].
-    split; [rewrite F1, <- Hsem, Hs; reflexivity|]. split; [exact F3|exact F5].
-  - destruct (cf t) as [c|] eqn:Ec; cbn [rbind] in H; [|discriminate].
-    destruct (Hcf t c W E C Ec) as (C1 & C2 & C3 & C4).
-    pose proof (good_all_sel env c C1) as Hsel. destruct c as [| | | | |sl k tg]; try (destruct Hsel; fail).
-    cbn [append_unary_sel] in H. injection H as <-.
-    destruct (good_all_wf env _ C1) as [Wc Ec'].
-    split; [exact Wc|]. split; [exact Ec'|]. split; [apply good_all_chains; exact C1|].
-    split; [rewrite C2, <- Hsem, Hs; reflexivity|]. split; [exact C3|exact C4].
-  - destruct (finish_apply_sem env t _ s W E (or_intror Ho) H) as (F1 & F2 & F3 & F4 & F5).
-    cbn [sem_op op_columns] in F1, F3.
-    split; [exact F2|]. split; [exact F4|]. split; [eapply finish_apply_chains; eauto|].
-    split; [rewrite F1, Hsem; reflexivity|]. split; [exact F3|exact F5].
-  - destruct (cf t) as [c|] eqn:Ec; cbn [rbind] in H; [|discriminate].
-    destruct (Hcf t c W E C Ec) as (C1 & C2 & C3 & C4).
-    assert (Ho' : op_wf (Sel (selection_norm p)) (columns c)) by (rewrite C3; exact Ho).
-    destruct (append_unary_sel_sound env c _ s C1 Ho' H) as (S1 & S2 & S3 & S4).
-    destruct (good_all_wf env _ S1) as [Ws Es].
-    split; [exact Ws|]. split; [exact Es|]. split; [apply good_all_chains; exact S1|].
-    split; [rewrite S2, C2; cbn [sem_op]; exact Hsem|]. split; [rewrite S3, C3; reflexivity|rewrite S4, C4; reflexivity].
+  all: try (destruct (finish_apply_sem env t Ident s W E (or_introl eq_refl) H) as (F1 & F2 & F3 & F4 & F5);
+            cbn [sem_op op_columns] in F1, F3;
+            split; [exact F2|]; split; [exact F4|]; split; [intros Hc; eapply finish_apply_chains; eauto|];
+            split; [rewrite F1, <- Hsem, Hs; reflexivity|]; split; [exact F3|]; split; [exact F5|]; intros Hk; discriminate).
+  all: try (destruct (finish_apply_sem env t _ s W E (or_intror Ho) H) as (F1 & F2 & F3 & F4 & F5);
+            cbn [sem_op op_columns] in F1, F3;
+            split; [exact F2|]; split; [exact F4|]; split; [intros Hc; eapply finish_apply_chains; eauto|];
+            split; [rewrite F1, Hsem; reflexivity|]; split; [exact F3|]; split; [exact F5|]; intros Hk; discriminate).
+  all: destruct (cf t) as [c|] eqn:Ec; cbn [rbind] in H; [|discriminate].
+  all: destruct (Hcf t c W E (C eq_refl) Ec) as (C1 & C2 & C3 & C4).
+  all: try (pose proof (good_all_sel env c C1) as Hsel; destruct c as [| | | | |sl k tg]; try (destruct Hsel; fail);
+            cbn [append_unary_sel] in H; injection H as <-;
+            destruct (good_all_wf env _ C1) as [Wc Ec'];
+            split; [exact Wc|]; split; [exact Ec'|]; split; [intros _; apply good_all_chains; exact C1|];
+            split; [rewrite C2, <- Hsem, Hs; reflexivity|]; split; [exact C3|]; split; [exact C4|]; intros _ _; exact C1).
+  all: assert (Ho' : op_wf (Sel (selection_norm p)) (columns c)) by (rewrite C3; exact Ho).
+  all: destruct (append_unary_sel_sound env c _ s C1 Ho' H) as (S1 & S2 & S3 & S4).
+  all: destruct (good_all_wf env _ S1) as [Ws Es].
+  all: split; [exact Ws|]; split; [exact Es|]; split; [intros _; apply good_all_chains; exact S1|];
+       split; [rewrite S2, C2; cbn [sem_op]; exact Hsem|]; split; [rewrite S3, C3; reflexivity|];
+       split; [rewrite S4, C4; reflexivity|]; intros _ _; exact S1.
+Qed.
+
+Lemma select_rows_sound env cf p t s :
+  cf_ok env cf → wf_tree t → env_ok env t → chains_good env t → cols_p p ⊆ columns t →
+  select_rows cf p t = Ok s →
+  wf_tree s ∧ env_ok env s ∧ chains_good env s ∧ sem_tree env s = sem_sel p (sem_tree env t) ∧
+  columns s = columns t ∧ engine_of s = engine_of t.
+Proof.
+  intros Hcf W E C Hp H.
+  destruct (select_rows_sound' env cf p t s Hcf W E (fun _ => C) Hp H) as (A1 & A2 & A3 & A4 & A5 & A6 & _).
+  repeat split; auto.
 Qed.
 
 (* ---- the join rule, for every pair of conformed operands ---- *)
